@@ -1,17 +1,39 @@
 (* fmt_driver.ml — model and oracle side of the format cluster (C08)
    case lines:   fmt <format-hex> <op>*        op  = p:<arg>  |  a:<arg>,<arg>,...  |  a:.
-                 exc <arg>+                    arg = s<hex> | s- | i<decimal> | d<decimal> *)
+                 seq <format-hex> <op>* / <format-hex> <op>* / ...     (several formatters, one after the other)
+                 exc <arg>+
+   arg = s<hex> | s- | i<dec> (long) | d<dec> (double, integer value) | b0 b1 (bool) | f<dec> (double z + 1/2)
+       | h<dec> x<dec> w<dec> t0 t1 (user types that leave hex / fixed+precision 2 / fill+left / boolalpha on the stream)
+       | mhex mboolalpha mshowbase mshowpos muppercase mfixed mleft msetprecision<n> msetw<n> msetfill<hex byte> *)
 let z_of_dec (d : string) : z =
   if String.length d <= 17 then z_of_int (int_of_string d)
   else (match read_dec (List.init (String.length d) (fun i -> byte_of_int (Char.code d.[i]))) with
         | Some x -> x | None -> failwith "decimal")
 let tail w k = String.sub w k (String.length w - k)
+let parse_manip (w : string) : manip =
+  let num pre = nat_of_int (int_of_string (tail w (String.length pre))) in
+  let has pre = String.length w > String.length pre && String.sub w 0 (String.length pre) = pre in
+  match w with
+  | "hex" -> MHex | "boolalpha" -> MBoolalpha | "showbase" -> MShowbase | "showpos" -> MShowpos
+  | "uppercase" -> MUppercase | "fixed" -> MFixed | "left" -> MLeft
+  | _ when has "setprecision" -> MSetprecision (num "setprecision")
+  | _ when has "setw" -> MSetw (num "setw")
+  | _ when has "setfill" && String.length w = 9 -> (match str_of_hex (tail w 7) with [c] -> MSetfill c | _ -> failwith "manip")
+  | _ -> failwith "manip"
+let parse_bool w = match w with "0" -> false | "1" -> true | _ -> failwith "bool"
 let parse_arg (w : string) : arg =
   if w = "" then failwith "arg" else
   match w.[0] with
   | 's' -> AStr (str_of_hex (tail w 1))
   | 'i' -> AInt (z_of_dec (tail w 1))
   | 'd' -> ADbl (z_of_dec (tail w 1))
+  | 'b' -> ABool (parse_bool (tail w 1))
+  | 'f' -> AHalf (z_of_dec (tail w 1))
+  | 'h' -> AHexer (z_of_dec (tail w 1))
+  | 'x' -> AFixer (z_of_dec (tail w 1))
+  | 'w' -> APadder (z_of_dec (tail w 1))
+  | 't' -> ABoolAlpha (parse_bool (tail w 1))
+  | 'm' -> AManip (parse_manip (tail w 1))
   | _ -> failwith "arg"
 let parse_op (w : string) : op =
   if String.length w < 3 || w.[1] <> ':' then failwith "op" else
@@ -20,20 +42,44 @@ let parse_op (w : string) : op =
   | 'a' -> Args (list_of_wire parse_arg (tail w 2))
   | _ -> failwith "op"
 let obs_res = function Ok s -> "S " ^ hex_of_str s | Raise _ -> "RAISE"
-let model = function
+let obs_short = function Ok s -> hex_of_str s | Raise _ -> "R"
+(* seq: formatter descriptions separated by the word "/" *)
+let rec split_seq (ws : string list) : string list list =
+  let rec go cur acc = function
+    | [] -> List.rev (List.rev cur :: acc)
+    | "/" :: r -> go [] (List.rev cur :: acc) r
+    | x :: r -> go (x :: cur) acc r in
+  go [] [] ws
+let parse_fmt = function f :: ops -> (str_of_hex f, List.map parse_op ops) | [] -> failwith "seq"
+let in_scope_exc args = List.for_all stateless args
+let model ws =
+  try (match ws with
   | "fmt" :: f :: ops -> obs_res (format_chain (str_of_hex f) (List.map parse_op ops))
-  | "exc" :: (_ :: _ as args) -> "W " ^ hex_of_str (exception_what (List.map parse_arg args))
-  | _ -> "BADCASE"
-(* the oracle judges an observation by the SPEC (split-based formula on the flattened, rendered
-   arguments; concatenation for the message), not by the model's loop *)
+  | "seq" :: rest -> "Q " ^ String.concat " " (List.map obs_short (format_seq (List.map parse_fmt (split_seq rest))))
+  | "exc" :: (_ :: _ as args) ->
+      let args = List.map parse_arg args in
+      if in_scope_exc args then "W " ^ hex_of_str (exception_what args) else "BADCASE"
+  | _ -> "BADCASE")
+  with Failure _ | Invalid_argument _ -> "BADCASE"
+(* the oracle judges an observation by the SPEC (split-based formula on the flattened arguments, each
+   rendered on its own; concatenation for the message), not by the model's loop *)
+let spec_obs (f, ops) = spec_format f (List.map render (flatten_ops ops))
 let oracle case obs =
   match case, words obs with
   | "fmt" :: f :: ops, o ->
-      let rendered = List.map render (flatten_ops (List.map parse_op ops)) in
-      (match spec_format (str_of_hex f) rendered, o with
+      (match spec_obs (str_of_hex f, List.map parse_op ops), o with
        | Raise _, ["RAISE"] -> true
        | Ok s, ["S"; x] -> str_of_hex x = s
        | _ -> false)
-  | "exc" :: (_ :: _ as args), ["W"; x] -> str_of_hex x = spec_message (List.map render (List.map parse_arg args))
+  | "seq" :: rest, "Q" :: rs ->
+      let l = List.map parse_fmt (split_seq rest) in
+      List.length l = List.length rs &&
+      List.for_all2 (fun fo r -> match spec_obs fo, r with
+                                 | Raise _, "R" -> true
+                                 | Ok s, x when x <> "R" -> str_of_hex x = s
+                                 | _ -> false) l rs
+  | "exc" :: (_ :: _ as args), ["W"; x] ->
+      let args = List.map parse_arg args in
+      in_scope_exc args && str_of_hex x = spec_message (List.map render args)
   | _ -> false
 let () = run_driver model oracle
